@@ -160,6 +160,16 @@ func VH_C14_return() {
 				"C14: a registered return handler receives the handler's results unchanged")
 		}))
 	}
+	lateCustom := 0
+	if shape == "late-custom" {
+		// an earlier handler returns a write-nothing value (the table is consulted once), then a
+		// middleware maps a return handler in the request scope: it must render what comes later
+		f.Use(func() string { return "" })
+		f.Use(func(c Context) {
+			c.Map(ReturnHandler(func(c Context, vals []reflect.Value) { lateCustom++ }))
+		})
+		h = func() string { return "body" }
+	}
 	continued := false
 	pos := vx.ParamInt("pos")
 	for i := 0; i < pos; i++ {
@@ -171,6 +181,11 @@ func VH_C14_return() {
 	req := &http.Request{Method: "GET", URL: &url.URL{Path: "/"}, Header: http.Header{}}
 	f.ServeHTTP(spy, req)
 
+	if shape == "late-custom" {
+		vx.Assert(lateCustom == 1 && spy.headers == 0 && spy.writes == 0, "C14: a return handler registered in the injector (request scope, during the request) replaces the table from then on")
+		vx.Observe("late-custom", lateCustom)
+		return
+	}
 	if shape == "custom" {
 		vx.Assert(customCalled == 1 && spy.headers == 0 && spy.writes == 0, "C14: a return handler registered in the injector replaces the table")
 		vx.Assert(continued, "C14: nothing written, so the chain continues")
